@@ -269,6 +269,9 @@ def run(chk, prog):
     from .common import reeval
     reeval(chk, prog, "C20", lambda i: i["rule"] == "R7" and any(t_ in i["what"] for t_ in ("getStepsPerTsync", "getStepsPerTrev", "steps_per_T", "getNRotations", "getSyncFreq", "getAlpha0")),
            "R8", "R8-configured-steps", 2)
+    # ---- R9: a kick or drift by the offset f displaces the charge by f: zeroth and first moment of the interpolation weights -------------------------
+    # (sum_k w_k = 1 and sum_k w_k*node_k = f for every order, nodes as updateSM places them: decided under C02 R1; re-evaluated here)
+    reeval(chk, prog, "C02", lambda i: i["rule"] == "R1" and ("moment 0" in i["what"] or "moment 1" in i["what"]), "R9", "R9-displacement-by-the-offset", 6)
     chk.notes.append("C03: linearised one-step kick-drift map read off the folded offset formulas: slopes, coupling product -a^2+O(a^4), sense, "
                      "single angle variable, equal cell sizes, centres at the zero bins. NOT decided: closure over a period, splitting-error size, "
                      "sinusoidal RF beyond the sign of its slope, DynamicRFKickMap (C19).")
